@@ -37,6 +37,19 @@ def main():
         ('hashkey[i] = uintptr(bootstrapRand())', 'hashkey[i] = uintptr(verifBoot(i))', 1),
         ('key[i] = bootstrapRand()', 'key[i] = verifBoot(i)', 1),
     ])
+    # sync.Pool: under the race detector every Put drops its item, so pooled objects never carry a
+    # happens-before edge from one controlled thread to another (fmt's pp pool would otherwise order
+    # all threads under GOMAXPROCS=1 and blind the detector). No effect on non-race builds.
+    sp = os.path.join(goroot, 'src', 'sync', 'pool.go')
+    ps = open(sp).read()
+    anchor = 'if runtime_randn(4) == 0 {'
+    if ps.count(anchor) != 1:
+        print("mapctl: sync/pool.go anchor missing: wrong toolchain", file=sys.stderr)
+        sys.exit(2)
+    ps = ps.replace(anchor, 'if true || runtime_randn(4) == 0 {')
+    q = os.path.join(out, 'sync_pool.go')
+    open(q, 'w').write(ps)
+    repl[sp] = q
     hook = os.path.join(out, 'verifhook.go')
     open(hook, 'w').write(HOOK)
     repl[os.path.join(rt, 'verifhook.go')] = hook
